@@ -711,7 +711,7 @@ def check_set(dv, node, root, x, report, fresh):
 MODELLED_RAISES = {
     # callee -> the raise sites the escape analysis knows how to exclude, as (exception, atom that must guard it)
     "FIXContainer.add_group": [("FIXMessageError", r"isinstance\(\w+, FIXContainer\)"), ("FIXMessageError", r"isinstance\(\w+, _FIXRepeatingGroupContainer\)")],
-    "FIXContainer.set": [("FIXMessageError", None), ("DuplicatedTagError", r"\w+ in self\.tags")],
+    "FIXContainer.set": [("FIXMessageError", None), ("DuplicatedTagError", r"\w+ in self\.tags|self\.tags\.get\(\w+\) is not None")],  # (a value that is not None implies the key is present)
 }
 
 
